@@ -67,6 +67,8 @@ type vfStreamEnd struct {
 	// partialAt >= 0: the transport write with that ordinal takes only partialN bytes and fails (a link
 	// failure in the middle of a write); later writes work again
 	partialAt, partialN int
+	// lenientClose: closing the transport a second time reports nothing (as net.Pipe does)
+	lenientClose bool
 }
 
 func vfNewStream() *vfStream {
@@ -255,6 +257,9 @@ func (e *vfStreamEnd) Close() error {
 	s.mu.Lock()
 	defer s.mu.Unlock()
 	if e.closed {
+		if e.lenientClose {
+			return nil
+		}
 		return net.ErrClosed
 	}
 	e.closed = true
